@@ -572,7 +572,9 @@ def _run_stage(ctx, res, want, maxlen, nrand):
     cases = list(gen_exhaustive(maxlen)) + list(gen_random(ctx["rng"], nrand))
     answers = run_driver("effect", [lean_line(c) for c in cases])
     res.rule = (
-        "[plus the enforce-context stream: 25 pairs (e, e2) of effect expressions in ONE enforcer, plain and context requests alternating] "
+        "[plus the enforce-context stream: 25 pairs (e, e2) of effect expressions in ONE enforcer, plain and context requests alternating; the eval()-history stream; "
+        "C01 only: batch_enforce with requests that print alike, and the flag-environment stream - model / policy / adapter / watcher reloaded or replaced while the "
+        "enforcer is disabled (must allow everything) and models with ANOTHER effect expression swapped in by set_model / load_model (the new expression decides)] "
         f"every sequence of rule outcomes {{match+allow, match+deny, match+other, no match}} of length <= {maxlen} x 5 effect "
         f"expressions x with/without effect column through Enforcer.enforce_ex/enforce/batch_enforce and the Lean model "
         f"(exhaustive), plus {nrand} seeded random cases (matcher results bool/float/int/str/None, wrong-arity rules and "
